@@ -12,15 +12,46 @@ import (
 	"verif/mc/ref"
 )
 
-var c17Opts = []string{"none", "SET", "MULTISET", "SETKEYS:id", "SET+SETKEYS:id", "MERGE", "PRECISION:0.1"}
+var c17Opts = []string{"none", "SET", "MULTISET", "SETKEYS:id", "SET+SETKEYS:id", "SET+SETKEYS:id,t", "MERGE", "PRECISION:0.1", "PRECISION:0.5"}
+
+// c17Partial: keyed arrays for Setkeys(id,t) in which some members carry only one of the two
+// keys and differ in two non-key fields (so that one diff has two hunks inside one member).
+func c17Partial() *TextSet {
+	return memoize("c17partial", func() *TextSet {
+		var m1, m2 []V
+		for _, p := range []V{1.0, 2.0} {
+			for _, q := range []V{1.0, 2.0} {
+				m1 = append(m1, map[string]interface{}{"id": 1.0, "p": p, "q": q})
+			}
+			m2 = append(m2, map[string]interface{}{"id": 2.0, "t": "x", "p": p})
+		}
+		out := []V{[]interface{}{}}
+		for _, a := range m1 {
+			out = append(out, []interface{}{a})
+			for _, b := range m2 {
+				out = append(out, []interface{}{a, b}, []interface{}{b, a}, map[string]interface{}{"items": []interface{}{a, b}})
+			}
+		}
+		for _, b := range m2 {
+			out = append(out, []interface{}{b})
+		}
+		return NewTextSet(out)
+	})
+}
 
 func c17Legs(tier, o string) []pairLeg {
 	switch o {
+	case "SET+SETKEYS:id,t":
+		legs := pairSpace(tier, "SETKEYS:id,t")
+		return append(legs, pairLeg{"Kpartial", c17Partial(), c17Partial()})
 	case "SET+SETKEYS:id":
 		return pairSpace(tier, "SETKEYS:id")
 	case "SETKEYS:id":
 		legs := pairSpace(tier, "SETKEYS:id")
 		return append(legs, pairLeg{"A3x6", Arr(3, "6"), Arr(3, "6")})
+	case "PRECISION:0.5":
+		ex := c04ExactDocs()
+		return []pairLeg{{"precision-exact-boundary", ex, ex}}
 	case "PRECISION:0.1":
 		pr := c04PrecisionDocs()
 		return []pairLeg{{"precision", pr, pr}, {"A3x6", Arr(3, "6"), Arr(3, "6")}}
@@ -69,7 +100,7 @@ func runC17(c *engine.Case) engine.Result {
 	var want bool
 	noEqVerdict := false
 	if o.Eps > 0 {
-		noEqVerdict = ref.NearBoundary(aV, bV, o.Eps)
+		noEqVerdict = o.Eps != 0.5 && ref.NearBoundary(aV, bV, o.Eps)
 		want = ref.EqualEps(aV, bV, o.Eps)
 	} else {
 		want = ref.Equal(aV, bV, o.Reading)
